@@ -1,4 +1,524 @@
 import XmpModel.Sample
-/-! Helper lemmas for C20 (loop-style passes = closed forms). -/
+/-! Helper lemmas for C20: every loop-style pass of `Xmp.Sample` computes its closed form
+(`Xmp.Sample.Spec`). -/
 namespace Xmp.Sample
+open Gen Spec
+
+/-! ### lists by index -/
+
+theorem nth_nil (i : Nat) : nth [] i = 0 := by simp [nth]
+theorem nth_cons_zero (x : UInt8) (p : Bytes) : nth (x :: p) 0 = x := by simp [nth]
+theorem nth_cons_succ (x : UInt8) (p : Bytes) (i : Nat) : nth (x :: p) (i + 1) = nth p i := by simp [nth]
+
+theorem nth_eq_getElem (p : Bytes) (i : Nat) (h : i < p.length) : nth p i = p[i] := by
+  simp [nth, List.getD_eq_getElem?_getD, h]
+
+theorem nth_ge (p : Bytes) (i : Nat) (h : p.length ≤ i) : nth p i = 0 := by
+  simp [nth, List.getD_eq_getElem?_getD, h]
+
+theorem ext_nth {a b : Bytes} (hl : a.length = b.length) (h : ∀ i, i < a.length → nth a i = nth b i) : a = b := by
+  apply List.ext_getElem hl
+  intro i h1 h2
+  have := h i h1
+  rwa [nth_eq_getElem a i h1, nth_eq_getElem b i h2] at this
+
+@[simp] theorem length_build (n : Nat) (f : Nat → UInt8) : (build n f).length = n := by simp [build]
+
+theorem nth_build (n : Nat) (f : Nat → UInt8) (i : Nat) (h : i < n) : nth (build n f) i = f i := by
+  simp [nth, build, List.getD_eq_getElem?_getD, h]
+
+theorem build_succ (n : Nat) (f : Nat → UInt8) : build (n + 1) f = f 0 :: build n (fun i => f (i + 1)) := by
+  simp [build, List.range_succ_eq_map, List.map_map, Function.comp_def]
+
+theorem build_zero (f : Nat → UInt8) : build 0 f = [] := by simp [build]
+
+theorem build_congr (n : Nat) (f g : Nat → UInt8) (h : ∀ i, i < n → f i = g i) : build n f = build n g := by
+  apply ext_nth (by simp)
+  intro i hi
+  simp only [length_build] at hi
+  rw [nth_build _ _ _ hi, nth_build _ _ _ hi, h i hi]
+
+theorem nth_append_left (a b : Bytes) (i : Nat) (h : i < a.length) : nth (a ++ b) i = nth a i := by
+  simp [nth, List.getD_eq_getElem?_getD, List.getElem?_append, h]
+
+theorem nth_append_right (a b : Bytes) (i : Nat) (h : a.length ≤ i) : nth (a ++ b) i = nth b (i - a.length) := by
+  have : ¬ i < a.length := by omega
+  simp [nth, List.getD_eq_getElem?_getD, List.getElem?_append, this]
+
+theorem nth_drop (p : Bytes) (k i : Nat) : nth (p.drop k) i = nth p (k + i) := by
+  simp [nth, List.getD_eq_getElem?_getD, List.getElem?_drop]
+
+theorem nth_take (p : Bytes) (k i : Nat) (h : i < k) : nth (p.take k) i = nth p i := by
+  simp [nth, List.getD_eq_getElem?_getD, h]
+
+/-- a list is the `build` of its own index function -/
+theorem eq_build (p : Bytes) : p = build p.length (nth p) := by
+  apply ext_nth (by simp)
+  intro i hi
+  rw [nth_build _ _ _ hi]
+
+/-! ### byte-wise passes: 7-bit shift, 8-bit sign flip, VIDC -/
+
+/-- the common shape of `convert_7bit_to_8bit`, the 8-bit `convert_signal` and `convert_vidc_to_linear` -/
+def mapPrefix (f : UInt8 → UInt8) : Nat → Bytes → Bytes
+  | l + 1, x :: p => f x :: mapPrefix f l p
+  | _, p => p
+
+theorem convert7bit_eq : ∀ l p, convert7bit l p = mapPrefix (· <<< 1) l p
+  | 0, p => by simp [convert7bit, mapPrefix]
+  | l + 1, [] => by simp [convert7bit, mapPrefix]
+  | l + 1, x :: p => by simp [convert7bit, mapPrefix, convert7bit_eq l p]
+
+theorem signal8_eq : ∀ l p, signal8 l p = mapPrefix (· + 0x80) l p
+  | 0, p => by simp [signal8, mapPrefix]
+  | l + 1, [] => by simp [signal8, mapPrefix]
+  | l + 1, x :: p => by simp [signal8, mapPrefix, signal8_eq l p]
+
+theorem convertVidc_eq : ∀ l p, convertVidc l p = mapPrefix vidcByte l p
+  | 0, p => by simp [convertVidc, mapPrefix]
+  | l + 1, [] => by simp [convertVidc, mapPrefix]
+  | l + 1, x :: p => by simp [convertVidc, mapPrefix, convertVidc_eq l p]
+
+theorem length_mapPrefix (f : UInt8 → UInt8) : ∀ l p, (mapPrefix f l p).length = p.length
+  | 0, p => by simp [mapPrefix]
+  | l + 1, [] => by simp [mapPrefix]
+  | l + 1, x :: p => by simp [mapPrefix, length_mapPrefix f l p]
+
+theorem nth_mapPrefix (f : UInt8 → UInt8) : ∀ l p i, i < p.length →
+    nth (mapPrefix f l p) i = if i < l then f (nth p i) else nth p i
+  | 0, p, i, _ => by simp [mapPrefix]
+  | l + 1, [], i, h => by simp at h
+  | l + 1, x :: p, 0, _ => by simp [mapPrefix, nth_cons_zero]
+  | l + 1, x :: p, i + 1, h => by
+    simp only [mapPrefix, nth_cons_succ]
+    rw [nth_mapPrefix f l p i (by simpa using h)]
+    simp
+
+theorem mapPrefix_closed (f : UInt8 → UInt8) (l : Nat) (p : Bytes) :
+    mapPrefix f l p = build p.length fun i => if i < l then f (nth p i) else nth p i := by
+  apply ext_nth (by simp [length_mapPrefix])
+  intro i hi
+  rw [length_mapPrefix] at hi
+  rw [nth_mapPrefix f l p i hi, nth_build _ _ _ hi]
+
+theorem convert7bit_closed (l : Nat) (p : Bytes) : convert7bit l p = Spec.shl1 l p := by
+  rw [convert7bit_eq, mapPrefix_closed]; rfl
+
+theorem convertVidc_closed (l : Nat) (p : Bytes) : convertVidc l p = Spec.vidc l p := by
+  rw [convertVidc_eq, mapPrefix_closed]; rfl
+
+theorem add80_eq_xor (x : UInt8) : x + 0x80 = x ^^^ 0x80 := by
+  have h : ∀ n, n < 256 → UInt8.ofNat n + 0x80 = UInt8.ofNat n ^^^ 0x80 := by decide +kernel
+  have := h x.toNat (UInt8.toNat_lt x)
+  rwa [UInt8.ofNat_toNat] at this
+
+theorem signal8_closed (l : Nat) (p : Bytes) : signal8 l p = Spec.unsign l false p := by
+  rw [signal8_eq, mapPrefix_closed]
+  unfold Spec.unsign
+  apply build_congr
+  intro i _
+  simp [add80_eq_xor]
+
+/-! ### word-wise passes: endian swap, 16-bit sign flip -/
+
+/-- the common shape of `convert_endian` and the 16-bit `convert_signal` -/
+def mapPairs (g : UInt8 → UInt8 → UInt8 × UInt8) : Nat → Bytes → Bytes
+  | l + 1, a :: b :: p => (g a b).1 :: (g a b).2 :: mapPairs g l p
+  | _, p => p
+
+theorem convertEndian_eq : ∀ l p, convertEndian l p = mapPairs (fun a b => (b, a)) l p
+  | 0, p => by simp [convertEndian, mapPairs]
+  | l + 1, [] => by simp [convertEndian, mapPairs]
+  | l + 1, [x] => by simp [convertEndian, mapPairs]
+  | l + 1, a :: b :: p => by simp [convertEndian, mapPairs, convertEndian_eq l p]
+
+def sig16 (lo hi : UInt8) : UInt8 × UInt8 :=
+  (UInt8.ofNat ((lo.toNat + 256 * hi.toNat + 0x8000) % 65536 % 256),
+   UInt8.ofNat ((lo.toNat + 256 * hi.toNat + 0x8000) % 65536 / 256))
+
+theorem signal16_eq : ∀ l p, signal16 l p = mapPairs sig16 l p
+  | 0, p => by simp [signal16, mapPairs]
+  | l + 1, [] => by simp [signal16, mapPairs]
+  | l + 1, [x] => by simp [signal16, mapPairs]
+  | l + 1, a :: b :: p => by simp [signal16, mapPairs, sig16, signal16_eq l p]
+
+theorem length_mapPairs (g) : ∀ l p, (mapPairs g l p).length = p.length
+  | 0, p => by simp [mapPairs]
+  | l + 1, [] => by simp [mapPairs]
+  | l + 1, [x] => by simp [mapPairs]
+  | l + 1, a :: b :: p => by simp [mapPairs, length_mapPairs g l p]
+
+theorem nth_mapPairs (g) : ∀ l p i, 2 * l ≤ p.length → i < p.length →
+    nth (mapPairs g l p) i =
+      if i < 2 * l then (if i % 2 = 0 then (g (nth p i) (nth p (i + 1))).1 else (g (nth p (i - 1)) (nth p i)).2)
+      else nth p i
+  | 0, p, i, _, _ => by simp [mapPairs]
+  | l + 1, [], i, _, h => by simp at h
+  | l + 1, [x], i, hl, _ => by simp at hl; omega
+  | l + 1, a :: b :: p, 0, _, _ => by simp [mapPairs, nth_cons_zero, nth_cons_succ]
+  | l + 1, a :: b :: p, 1, _, _ => by
+    have : (1 : Nat) < 2 * (l + 1) := by omega
+    simp [mapPairs, nth_cons_zero, nth_cons_succ, this]
+  | l + 1, a :: b :: p, i + 2, hl, h => by
+    simp only [mapPairs, nth_cons_succ]
+    rw [nth_mapPairs g l p i (by simp at hl; omega) (by simpa using h)]
+    have e1 : (i + 2) % 2 = i % 2 := by omega
+    have e3 : i % 2 ≠ 0 → nth (a :: b :: p) (i + 1) = nth p (i - 1) := by
+      intro h0
+      have : i + 1 = i - 1 + 2 := by omega
+      rw [this, nth_cons_succ, nth_cons_succ]
+    rw [e1]
+    by_cases hc : i < 2 * l
+    · have hc' : i + 2 < 2 * (l + 1) := by omega
+      by_cases h0 : i % 2 = 0
+      · simp [hc, hc', h0]
+      · simp [hc, hc', h0, e3 h0]
+    · have hc' : ¬ i + 2 < 2 * (l + 1) := by omega
+      simp [hc, hc']
+
+theorem mapPairs_closed (g) (l : Nat) (p : Bytes) (hl : 2 * l ≤ p.length) :
+    mapPairs g l p = build p.length fun i =>
+      if i < 2 * l then (if i % 2 = 0 then (g (nth p i) (nth p (i + 1))).1 else (g (nth p (i - 1)) (nth p i)).2)
+      else nth p i := by
+  apply ext_nth (by simp [length_mapPairs])
+  intro i hi
+  rw [length_mapPairs] at hi
+  rw [nth_mapPairs g l p i hl hi, nth_build _ _ _ hi]
+
+theorem convertEndian_closed (l : Nat) (p : Bytes) (hl : 2 * l ≤ p.length) : convertEndian l p = Spec.bswap l p := by
+  rw [convertEndian_eq, mapPairs_closed _ _ _ hl]; rfl
+
+theorem ofNat_add128 (x : UInt8) : UInt8.ofNat ((x.toNat + 128) % 256) = x ^^^ 0x80 := by
+  have h : ∀ n, n < 256 → UInt8.ofNat ((n + 128) % 256) = UInt8.ofNat n ^^^ 0x80 := by decide +kernel
+  have := h x.toNat (UInt8.toNat_lt x)
+  rwa [UInt8.ofNat_toNat] at this
+
+theorem sig16_fst (lo hi : UInt8) : (sig16 lo hi).1 = lo := by
+  have h1 := UInt8.toNat_lt lo
+  have h2 := UInt8.toNat_lt hi
+  have : (lo.toNat + 256 * hi.toNat + 0x8000) % 65536 % 256 = lo.toNat := by omega
+  simp only [sig16, this, UInt8.ofNat_toNat]
+
+theorem sig16_snd (lo hi : UInt8) : (sig16 lo hi).2 = hi ^^^ 0x80 := by
+  have h1 := UInt8.toNat_lt lo
+  have h2 := UInt8.toNat_lt hi
+  have : (lo.toNat + 256 * hi.toNat + 0x8000) % 65536 / 256 = (hi.toNat + 128) % 256 := by omega
+  simp only [sig16, this, ofNat_add128]
+
+theorem signal16_closed (l : Nat) (p : Bytes) (hl : 2 * l ≤ p.length) : signal16 l p = Spec.unsign l true p := by
+  rw [signal16_eq, mapPairs_closed _ _ _ hl]
+  unfold Spec.unsign
+  apply build_congr
+  intro i _
+  simp only [sig16_fst, sig16_snd, if_true]
+  by_cases h1 : i < 2 * l <;> by_cases h2 : i % 2 = 0 <;> simp [h1, h2]
+
+theorem convertSignal_closed (l : Nat) (is16 : Bool) (p : Bytes) (hl : is16 = true → 2 * l ≤ p.length) :
+    convertSignal l is16 p = Spec.unsign l is16 p := by
+  cases is16
+  · simp [convertSignal, signal8_closed]
+  · simp [convertSignal, signal16_closed l p (hl rfl)]
+
+/-! ### delta decoding -/
+
+/-- `Σ_{j < n} f j` in the shape the closed forms use -/
+def psum (f : Nat → Nat) (n : Nat) : Nat := ((List.range n).map f).sum
+
+theorem psum_zero (f : Nat → Nat) : psum f 0 = 0 := by simp [psum]
+
+theorem psum_succ_left (f : Nat → Nat) (n : Nat) : psum f (n + 1) = f 0 + psum (fun j => f (j + 1)) n := by
+  simp [psum, List.range_succ_eq_map, List.map_map, Function.comp_def]
+
+theorem psum_succ (f : Nat → Nat) (n : Nat) : psum f (n + 1) = psum f n + f n := by
+  simp [psum, List.range_succ]
+
+theorem ofNat_congr {a b : Nat} (h : a % 256 = b % 256) : UInt8.ofNat a = UInt8.ofNat b := by
+  have e1 : UInt8.ofNat a = UInt8.ofNat (a % 2 ^ 8) := UInt8.ofNat_mod_size.symm
+  have e2 : UInt8.ofNat b = UInt8.ofNat (b % 2 ^ 8) := UInt8.ofNat_mod_size.symm
+  rw [e1, e2]
+  show UInt8.ofNat (a % 256) = UInt8.ofNat (b % 256)
+  rw [h]
+
+theorem length_delta8Chan : ∀ n a q, (delta8Chan n a q).length = q.length
+  | 0, a, q => by simp [delta8Chan]
+  | n + 1, a, [] => by simp [delta8Chan]
+  | n + 1, a, x :: q => by simp [delta8Chan, length_delta8Chan n _ q]
+
+theorem nth_delta8Chan : ∀ n a q i, q.length ≤ n → i < q.length →
+    nth (delta8Chan n a q) i = UInt8.ofNat ((a + psum (fun j => (nth q j).toNat) (i + 1)) % 256)
+  | 0, a, q, i, hl, hi => by omega
+  | n + 1, a, [], i, hl, hi => by simp at hi
+  | n + 1, a, x :: q, 0, hl, hi => by
+    simp only [delta8Chan, nth_cons_zero, psum_succ_left, psum_zero]
+    apply ofNat_congr; omega
+  | n + 1, a, x :: q, i + 1, hl, hi => by
+    simp only [delta8Chan, nth_cons_succ]
+    rw [nth_delta8Chan n _ q i (by simp at hl; omega) (by simpa using hi)]
+    rw [psum_succ_left (fun j => (nth (x :: q) j).toNat)]
+    simp only [nth_cons_zero, nth_cons_succ]
+    generalize psum (fun j => (nth q j).toNat) (i + 1) = S
+    apply ofNat_congr; omega
+
+theorem delta8Chan_closed (n : Nat) (q : Bytes) (h : q.length ≤ n) : delta8Chan n 0 q = Spec.prefixSums8 q := by
+  apply ext_nth (by simp [length_delta8Chan, Spec.prefixSums8])
+  intro i hi
+  rw [length_delta8Chan] at hi
+  rw [nth_delta8Chan n 0 q i h hi, Spec.prefixSums8, nth_build _ _ _ hi]
+  simp [psum]
+
+theorem word_cons_zero (lo hi : UInt8) (q : Bytes) : word (lo :: hi :: q) 0 = lo.toNat + 256 * hi.toNat := by
+  simp [word, nth_cons_zero, nth_cons_succ]
+
+theorem word_cons_succ (lo hi : UInt8) (q : Bytes) (k : Nat) : word (lo :: hi :: q) (k + 1) = word q k := by
+  have e1 : 2 * (k + 1) = 2 * k + 1 + 1 := by omega
+  have e2 : 2 * (k + 1) + 1 = 2 * k + 1 + 1 + 1 := by omega
+  simp only [word, e1, nth_cons_succ]
+
+theorem length_delta16Chan : ∀ n a q, (delta16Chan n a q).length = q.length
+  | 0, a, q => by simp [delta16Chan]
+  | n + 1, a, [] => by simp [delta16Chan]
+  | n + 1, a, [x] => by simp [delta16Chan]
+  | n + 1, a, lo :: hi :: q => by simp [delta16Chan, length_delta16Chan n _ q]
+
+theorem nth_delta16Chan : ∀ n a q i, q.length ≤ 2 * n → i < q.length →
+    nth (delta16Chan n a q) i =
+      if i < 2 * (q.length / 2) then
+        UInt8.ofNat (if i % 2 = 0 then (a + psum (word q) (i / 2 + 1)) % 65536 % 256
+                     else (a + psum (word q) (i / 2 + 1)) % 65536 / 256)
+      else nth q i
+  | 0, a, q, i, hl, hi => by omega
+  | n + 1, a, [], i, hl, hi => by simp at hi
+  | n + 1, a, [x], i, hl, hi => by
+    have : i = 0 := by simp at hi; omega
+    subst this
+    simp [delta16Chan]
+  | n + 1, a, lo :: hi' :: q, 0, hl, hi => by
+    have hlen : (lo :: hi' :: q).length = q.length + 2 := rfl
+    have hc : 0 < 2 * ((lo :: hi' :: q).length / 2) := by omega
+    simp only [delta16Chan, nth_cons_zero, hc, if_true, psum_succ_left, Nat.zero_div, psum_zero, word_cons_zero]
+    apply ofNat_congr
+    omega
+  | n + 1, a, lo :: hi' :: q, 1, hl, hi => by
+    have hlen : (lo :: hi' :: q).length = q.length + 2 := rfl
+    have hc : 1 < 2 * ((lo :: hi' :: q).length / 2) := by omega
+    have h1 : ¬ ((1 : Nat) % 2 = 0) := by omega
+    have h2 : (1 : Nat) / 2 + 1 = 0 + 1 := rfl
+    simp only [delta16Chan, nth_cons_zero, nth_cons_succ, hc, if_true, h1, if_false, h2, psum_succ_left, psum_zero,
+      word_cons_zero]
+    apply ofNat_congr
+    have : (lo.toNat + 256 * hi'.toNat + a) = (a + (lo.toNat + 256 * hi'.toNat + 0)) := by omega
+    rw [this]
+  | n + 1, a, lo :: hi' :: q, i + 2, hl, hi => by
+    simp only [delta16Chan, nth_cons_succ]
+    rw [nth_delta16Chan n _ q i (by simp at hl; omega) (by simpa using hi)]
+    have e1 : (i + 2) % 2 = i % 2 := by omega
+    have e2 : (i + 2) / 2 + 1 = (i / 2 + 1) + 1 := by omega
+    have hlen : (lo :: hi' :: q).length = q.length + 2 := rfl
+    have e3 : (lo :: hi' :: q).length / 2 = q.length / 2 + 1 := by omega
+    rw [e1, e2, e3, psum_succ_left (word (lo :: hi' :: q))]
+    simp only [word_cons_zero, word_cons_succ]
+    generalize psum (word q) (i / 2 + 1) = S
+    have e5 : ((lo.toNat + 256 * hi'.toNat + a) % 65536 + S) % 65536 = (a + (lo.toNat + 256 * hi'.toNat + S)) % 65536 := by
+      omega
+    rw [e5]
+    by_cases hc : i < 2 * (q.length / 2)
+    · have hc' : i + 2 < 2 * (q.length / 2 + 1) := by omega
+      simp [hc, hc']
+    · have hc' : ¬ i + 2 < 2 * (q.length / 2 + 1) := by omega
+      simp [hc, hc']
+
+theorem delta16Chan_closed (n : Nat) (q : Bytes) (h : q.length ≤ 2 * n) : delta16Chan n 0 q = Spec.prefixSums16 q := by
+  apply ext_nth (by simp [length_delta16Chan, Spec.prefixSums16])
+  intro i hi
+  rw [length_delta16Chan] at hi
+  rw [nth_delta16Chan n 0 q i h hi, Spec.prefixSums16, nth_build _ _ _ hi]
+  simp [psum]
+
+theorem convertDelta_closed8 (frames : Nat) : ∀ c p, convertDelta frames false c p = Spec.delta8 frames c p
+  | 0, p => by simp [convertDelta, Spec.delta8, Spec.planes]
+  | c + 1, p => by
+    have ih := convertDelta_closed8 frames c (p.drop frames)
+    simp only [Spec.delta8] at ih
+    simp only [convertDelta, Spec.delta8, Spec.planes, ih]
+    rw [delta8Chan_closed frames _ (by simp [List.length_take]; omega)]
+    simp
+
+theorem convertDelta_closed16 (frames : Nat) : ∀ c p, convertDelta frames true c p = Spec.delta16 frames c p
+  | 0, p => by simp [convertDelta, Spec.delta16, Spec.planes]
+  | c + 1, p => by
+    have ih := convertDelta_closed16 frames c (p.drop (2 * frames))
+    simp only [Spec.delta16] at ih
+    simp only [convertDelta, Spec.delta16, Spec.planes, ih]
+    rw [delta16Chan_closed frames _ (by simp [List.length_take]; omega)]
+    simp
+
+/-! ### stereo interleave -/
+
+theorem length_interleave8 : ∀ n ls rs, n ≤ ls.length → n ≤ rs.length → (interleave8 n ls rs).length = 2 * n
+  | 0, ls, rs, _, _ => by simp [interleave8]
+  | n + 1, [], rs, h, _ => by simp at h
+  | n + 1, l :: ls, [], _, h => by simp at h
+  | n + 1, l :: ls, r :: rs, h1, h2 => by
+    simp only [interleave8, List.length_cons]
+    rw [length_interleave8 n ls rs (by simpa using h1) (by simpa using h2)]
+    omega
+
+theorem nth_interleave8 : ∀ n ls rs i, n ≤ ls.length → n ≤ rs.length → i < 2 * n →
+    nth (interleave8 n ls rs) i = if i % 2 = 0 then nth ls (i / 2) else nth rs (i / 2)
+  | 0, ls, rs, i, _, _, hi => by omega
+  | n + 1, [], rs, i, h, _, _ => by simp at h
+  | n + 1, l :: ls, [], i, _, h, _ => by simp at h
+  | n + 1, l :: ls, r :: rs, 0, _, _, _ => by simp [interleave8, nth_cons_zero]
+  | n + 1, l :: ls, r :: rs, 1, _, _, _ => by simp [interleave8, nth_cons_zero, nth_cons_succ]
+  | n + 1, l :: ls, r :: rs, i + 2, h1, h2, hi => by
+    simp only [interleave8, nth_cons_succ]
+    rw [nth_interleave8 n ls rs i (by simpa using h1) (by simpa using h2) (by omega)]
+    have e1 : (i + 2) % 2 = i % 2 := by omega
+    have e2 : (i + 2) / 2 = i / 2 + 1 := by omega
+    rw [e1, e2, nth_cons_succ, nth_cons_succ]
+
+theorem length_interleave16 : ∀ n ls rs, 2 * n ≤ ls.length → 2 * n ≤ rs.length → (interleave16 n ls rs).length = 4 * n
+  | 0, ls, rs, _, _ => by simp [interleave16]
+  | n + 1, [], rs, h, _ => by simp at h
+  | n + 1, [x], rs, h, _ => by simp at h; omega
+  | n + 1, l0 :: l1 :: ls, [], _, h => by simp at h
+  | n + 1, l0 :: l1 :: ls, [x], _, h => by simp at h; omega
+  | n + 1, l0 :: l1 :: ls, r0 :: r1 :: rs, h1, h2 => by
+    simp only [interleave16, List.length_cons]
+    rw [length_interleave16 n ls rs (by simp at h1; omega) (by simp at h2; omega)]
+    omega
+
+theorem nth_interleave16 : ∀ n ls rs i, 2 * n ≤ ls.length → 2 * n ≤ rs.length → i < 4 * n →
+    nth (interleave16 n ls rs) i =
+      if i / 2 % 2 = 0 then nth ls (2 * (i / 4) + i % 2) else nth rs (2 * (i / 4) + i % 2)
+  | 0, ls, rs, i, _, _, hi => by omega
+  | n + 1, [], rs, i, h, _, _ => by simp at h
+  | n + 1, [x], rs, i, h, _, _ => by simp at h; omega
+  | n + 1, l0 :: l1 :: ls, [], i, _, h, _ => by simp at h
+  | n + 1, l0 :: l1 :: ls, [x], i, _, h, _ => by simp at h; omega
+  | n + 1, l0 :: l1 :: ls, r0 :: r1 :: rs, 0, _, _, _ => by simp [interleave16, nth_cons_zero]
+  | n + 1, l0 :: l1 :: ls, r0 :: r1 :: rs, 1, _, _, _ => by simp [interleave16, nth_cons_zero, nth_cons_succ]
+  | n + 1, l0 :: l1 :: ls, r0 :: r1 :: rs, 2, _, _, _ => by simp [interleave16, nth_cons_zero, nth_cons_succ]
+  | n + 1, l0 :: l1 :: ls, r0 :: r1 :: rs, 3, _, _, _ => by simp [interleave16, nth_cons_zero, nth_cons_succ]
+  | n + 1, l0 :: l1 :: ls, r0 :: r1 :: rs, i + 4, h1, h2, hi => by
+    simp only [interleave16, nth_cons_succ]
+    rw [nth_interleave16 n ls rs i (by simp at h1; omega) (by simp at h2; omega) (by omega)]
+    have e1 : (i + 4) / 2 % 2 = i / 2 % 2 := by omega
+    have e2 : 2 * ((i + 4) / 4) + (i + 4) % 2 = 2 * (i / 4) + i % 2 + 1 + 1 := by omega
+    rw [e1, e2, nth_cons_succ, nth_cons_succ, nth_cons_succ, nth_cons_succ]
+
+theorem stereoInterleave_closed (frames : Nat) (is16 : Bool) (tmp : Bytes)
+    (h : (if is16 then 4 else 2) * frames ≤ tmp.length) :
+    stereoInterleave frames is16 tmp = Spec.interleave frames is16 tmp := by
+  cases is16
+  · simp only [Bool.false_eq_true, if_false] at h
+    simp only [stereoInterleave, Spec.interleave, Bool.false_eq_true, if_false]
+    have hr : frames ≤ (tmp.drop frames).length := by simp; omega
+    apply ext_nth (by rw [length_interleave8 _ _ _ (by omega) hr]; simp)
+    intro i hi
+    rw [length_interleave8 _ _ _ (by omega) hr] at hi
+    rw [nth_interleave8 _ _ _ i (by omega) hr hi, nth_build _ _ _ hi, nth_drop]
+    by_cases h0 : i % 2 = 0
+    · simp [h0]
+    · have : i % 2 = 1 := by omega
+      simp [this]
+  · simp only [if_true] at h
+    simp only [stereoInterleave, Spec.interleave, if_true]
+    have hr : 2 * frames ≤ (tmp.drop (2 * frames)).length := by simp; omega
+    apply ext_nth (by rw [length_interleave16 _ _ _ (by omega) hr]; simp)
+    intro i hi
+    rw [length_interleave16 _ _ _ (by omega) hr] at hi
+    rw [nth_interleave16 _ _ _ i (by omega) hr hi, nth_build _ _ _ hi, nth_drop]
+    by_cases h0 : i / 2 % 2 = 0
+    · simp [h0]
+    · have : i / 2 % 2 = 1 := by omega
+      have e : 2 * frames + (2 * (i / 4) + i % 2) = 2 * (frames + i / 4) + i % 2 := by omega
+      simp [this, e]
+
+/-! ### lengths of the closed forms, and the pipeline -/
+
+@[simp] theorem length_shl1 (c : Nat) (p : Bytes) : (Spec.shl1 c p).length = p.length := by simp [Spec.shl1]
+@[simp] theorem length_bswap (c : Nat) (p : Bytes) : (Spec.bswap c p).length = p.length := by simp [Spec.bswap]
+@[simp] theorem length_unsign (c : Nat) (b : Bool) (p : Bytes) : (Spec.unsign c b p).length = p.length := by
+  simp [Spec.unsign]
+@[simp] theorem length_vidc (c : Nat) (p : Bytes) : (Spec.vidc c p).length = p.length := by simp [Spec.vidc]
+@[simp] theorem length_prefixSums8 (p : Bytes) : (Spec.prefixSums8 p).length = p.length := by simp [Spec.prefixSums8]
+@[simp] theorem length_prefixSums16 (p : Bytes) : (Spec.prefixSums16 p).length = p.length := by simp [Spec.prefixSums16]
+
+theorem length_planes (n : Nat) (g : Bytes → Bytes) (hg : ∀ q, (g q).length = q.length) :
+    ∀ c p, (Spec.planes n g c p).length = p.length
+  | 0, p => by simp [Spec.planes]
+  | c + 1, p => by
+    simp only [Spec.planes, List.length_append, hg, length_planes n g hg c, List.length_take, List.length_drop]
+    omega
+
+@[simp] theorem length_delta8 (f c : Nat) (p : Bytes) : (Spec.delta8 f c p).length = p.length :=
+  length_planes _ _ length_prefixSums8 _ _
+@[simp] theorem length_delta16 (f c : Nat) (p : Bytes) : (Spec.delta16 f c p).length = p.length :=
+  length_planes _ _ length_prefixSums16 _ _
+
+theorem length_interleave (frames : Nat) (is16 : Bool) (p : Bytes) :
+    (Spec.interleave frames is16 p).length = (if is16 then 4 else 2) * frames := by
+  cases is16 <;> simp [Spec.interleave]
+
+theorem frameLen_cases (is16 stereo : Bool) :
+    frameLen is16 stereo = (if is16 then 2 else 1) * (if stereo then 2 else 1) := rfl
+
+/-- **The conversion passes, in the C's order, compute the closed-form pipeline.** -/
+theorem convert_closed (flags : Nat) (is16 stereo : Bool) (len : Nat) (dest : Bytes)
+    (hlen : dest.length = len * frameLen is16 stereo) :
+    (let d := convert flags is16 len (if stereo then 2 else 1) dest
+     if stereo && !fl flags SAMPLE_FLAG_INTERLEAVED then stereoInterleave len is16 d else d)
+      = Spec.pcm flags is16 stereo len dest := by
+  simp only [convert, Spec.pcm, convert7bit_closed, convertVidc_closed]
+  generalize hc : len * (if stereo then 2 else 1) = cnt
+  have hcnt : (if is16 then 2 else 1) * cnt = dest.length := by
+    rw [hlen, ← hc, frameLen_cases]; cases is16 <;> cases stereo <;> simp <;> omega
+  generalize h1 : (if fl flags SAMPLE_FLAG_7BIT then Spec.shl1 cnt dest else dest) = d1
+  have l1 : d1.length = dest.length := by subst h1; split <;> simp
+  have e2 : (if (is16 && fl flags SAMPLE_FLAG_BIGEND) = true then convertEndian cnt d1 else d1)
+          = (if (is16 && fl flags SAMPLE_FLAG_BIGEND) = true then Spec.bswap cnt d1 else d1) := by
+    split
+    · rename_i h; simp only [Bool.and_eq_true] at h
+      rw [convertEndian_closed _ _ (by rw [l1, ← hcnt, h.1]; simp)]
+    · rfl
+  rw [e2]
+  generalize h2 : (if (is16 && fl flags SAMPLE_FLAG_BIGEND) = true then Spec.bswap cnt d1 else d1) = d2
+  have l2 : d2.length = dest.length := by subst h2; split <;> simp [l1]
+  have e3 : (if fl flags SAMPLE_FLAG_DIFF = true then convertDelta len is16 (if stereo then 2 else 1) d2
+             else if fl flags SAMPLE_FLAG_8BDIFF = true then
+               convertDelta (if is16 then len * 2 else len) false (if stereo then 2 else 1) d2 else d2)
+          = (if fl flags SAMPLE_FLAG_DIFF = true then
+               (if is16 then Spec.delta16 len (if stereo then 2 else 1) d2 else Spec.delta8 len (if stereo then 2 else 1) d2)
+             else if fl flags SAMPLE_FLAG_8BDIFF = true then
+               Spec.delta8 (if is16 then len * 2 else len) (if stereo then 2 else 1) d2 else d2) := by
+    rw [convertDelta_closed8]
+    cases is16
+    · rw [convertDelta_closed8]; simp
+    · rw [convertDelta_closed16]; simp
+  rw [e3]
+  generalize h3 : (if fl flags SAMPLE_FLAG_DIFF = true then
+               (if is16 then Spec.delta16 len (if stereo then 2 else 1) d2 else Spec.delta8 len (if stereo then 2 else 1) d2)
+             else if fl flags SAMPLE_FLAG_8BDIFF = true then
+               Spec.delta8 (if is16 then len * 2 else len) (if stereo then 2 else 1) d2 else d2) = d3
+  have l3 : d3.length = dest.length := by
+    subst h3; split
+    · split <;> simp [l2]
+    · split <;> simp [l2]
+  have e4 : (if fl flags SAMPLE_FLAG_UNS = true then convertSignal cnt is16 d3 else d3)
+          = (if fl flags SAMPLE_FLAG_UNS = true then Spec.unsign cnt is16 d3 else d3) := by
+    split
+    · rw [convertSignal_closed _ _ _ (by intro h; rw [l3, ← hcnt, h]; simp)]
+    · rfl
+  rw [e4]
+  generalize h4 : (if fl flags SAMPLE_FLAG_UNS = true then Spec.unsign cnt is16 d3 else d3) = d4
+  have l4 : d4.length = dest.length := by subst h4; split <;> simp [l3]
+  generalize h5 : (if fl flags SAMPLE_FLAG_VIDC = true then Spec.vidc cnt d4 else d4) = d5
+  have l5 : d5.length = dest.length := by subst h5; split <;> simp [l4]
+  split
+  · rename_i h; simp only [Bool.and_eq_true] at h
+    rw [stereoInterleave_closed _ _ _ (by
+      rw [l5, hlen, frameLen_cases, h.1]; cases is16 <;> simp <;> omega)]
+  · rfl
+
 end Xmp.Sample
